@@ -202,9 +202,12 @@ def outline_pragma_regions(routine):
 
                 # Extract explicitly requested symbols from context
                 intent_map = {}
-                intent_map['in'] = tuple(parent_vmap[v] for v in parameters.get('in', '').split(',') if v)
-                intent_map['inout'] = tuple(parent_vmap[v] for v in parameters.get('inout', '').split(',') if v)
-                intent_map['out'] = tuple(parent_vmap[v] for v in parameters.get('out', '').split(',') if v)
+                # (without the declared dimensions, so that they compare equal to the symbols from the dataflow analysis)
+                for intent in ('in', 'inout', 'out'):
+                    intent_map[intent] = tuple(
+                        parent_vmap[v.strip()].clone(dimensions=None)
+                        for v in parameters.get(intent, '').split(',') if v.strip()
+                    )
 
                 call, region_routine = outline_region(region, name, imports, intent_map=intent_map)
 
